@@ -50,6 +50,14 @@ theorem keygen_guard_constants :
     Gen.gammaBoundBits = 4608843796702554384 ∧ Gen.invertibilityGuardAll = true ∧
     Gen.fgGuardGe = true ∧ Gen.capGuardGe = false ∧ Gen.capGuardLimit = 127 := ⟨rfl, rfl, rfl, rfl, rfl⟩
 
+/-- the constants that decide the leaf range: the tree is normalised with the specification's σ of the variant
+    (165.7366171829776 / 168.38857144654395), the lower end is the specification's σ_min, and 1.17²·q·σ_min² ≤ σ²
+    is what makes "γ ≤ 1.3689 q ⇒ every leaf ≥ σ_min" hold (IEEE bit patterns of the literals) -/
+theorem leaf_range_constants :
+    Gen.sigmaBits512 = 4640035355371950575 ∧ Gen.sigminBits512 = 4608433670533905013 ∧
+    Gen.sigmaBits1024 = 4640128662717522458 ∧ Gen.sigminBits1024 = 4608525754002622308 ∧
+    Gen.gammaBoundBits = 4608843796702554384 := ⟨rfl, rfl, rfl, rfl, rfl⟩
+
 /-- what the executable check on each generated key asserts, stated as a proposition -/
 theorem keyCheck_ok_means (n : Nat) (f g cF cG : List Int) (h : List Nat) (hk : KeygenSkel.keyCheck n f g cF cG h = "ok") :
     RingZ.ntruLhs n f g cF cG = (12289 : Int) :: List.replicate (n - 1) 0 := by
